@@ -224,3 +224,130 @@ _pr.configure = _configure_res
 _pr.own_config = True
 _pr.contracts = contracts_res
 proofs.append(_pr)
+
+
+# ---------------------------------------------------------------------------------------------
+# GetUintEnvironmentVariable / GetBoolEnvironmentVariable: the raw value comes from GetRawEnvironmentVariable (boundary: exists or not, an
+# arbitrary NUL-terminated string of at most 31 bytes); std::strtoull and strcasecmp are ASSUMED contracts from the C standard.
+ENV_PRE = r"""
+size_t g_k;
+int g_exists; unsigned long g_len; char g_raw[32];       /* the environment: is the variable set, and to which string */
+/* what strtoull found (ghost outputs of the assumed contract) */
+unsigned long g_st_calls, g_st_ws, g_st_nd; int g_st_neg, g_st_plus, g_st_range; unsigned long g_st_value;
+int xc_errno;
+int g_cmp_true, g_cmp_false;                              /* strcasecmp(raw, "true") == 0 / strcasecmp(raw, "false") == 0 */
+static void xc_havoc_ghosts(void) { size_t a; g_k = a; g_st_calls = 0; }
+#define ISWS(c) ((c) == ' ' || ((c) >= 9 && (c) <= 13))
+#define ISDIG(c) ((c) >= '0' && (c) <= '9')
+#define LOWER(c) (((c) >= 'A' && (c) <= 'Z') ? (c) + 32 : (c))
+"""
+ENV_POST = r"""
+/* GetRawEnvironmentVariable(name, value): boundary */
+static bool xc_GetRaw(xc_str *value) { if (g_exists) { value->data = g_raw; value->len = g_len; } return g_exists != 0; }
+/* std::strtoull(s, &end, 10), C standard 7.22.1.4: optional white space, optional sign, digits; the value of the digits, NEGATED (in the
+   unsigned type) when the sign is '-'; ULLONG_MAX and errno = ERANGE when the digits do not fit; no digits: 0 and end = s.
+   Assumed contract: the ghost outputs say which shape was found; the numeric value of the digit string itself is left abstract (g_st_value),
+   which is all the obligations below need. */
+unsigned long xc_strtoull(const char *s, char **end)
+__CPROVER_requires(s == g_raw && g_len < 32 && g_raw[g_len] == 0 && __CPROVER_w_ok(end, sizeof(*end)))
+__CPROVER_assigns(*end, xc_errno, g_st_calls, g_st_ws, g_st_nd, g_st_neg, g_st_plus, g_st_range, g_st_value)
+__CPROVER_ensures(g_st_calls == __CPROVER_old(g_st_calls) + 1)
+__CPROVER_ensures(g_st_ws <= g_len && g_st_nd <= g_len && g_st_ws + (unsigned long)(g_st_neg || g_st_plus) + g_st_nd <= g_len && !(g_st_neg && g_st_plus))
+__CPROVER_ensures(g_k < g_st_ws ==> ISWS(g_raw[g_k]))
+__CPROVER_ensures(g_st_neg == (g_st_nd > 0 && g_raw[g_st_ws] == '-') && g_st_plus == (g_st_nd > 0 && g_raw[g_st_ws] == '+'))
+__CPROVER_ensures((g_st_ws + (unsigned long)(g_st_neg || g_st_plus) <= g_k && g_k < g_st_ws + (unsigned long)(g_st_neg || g_st_plus) + g_st_nd) ==> ISDIG(g_raw[g_k]))
+__CPROVER_ensures(g_st_nd == 0 ? (*end == (char *)s && __CPROVER_return_value == 0) : __CPROVER_pointer_equals(*end, (char *)s + g_st_ws + (unsigned long)(g_st_neg || g_st_plus) + g_st_nd))
+__CPROVER_ensures(g_st_range ? (xc_errno == 34 && __CPROVER_return_value == 0xffffffffffffffffUL) : (xc_errno == __CPROVER_old(xc_errno)))
+__CPROVER_ensures((g_st_nd > 0 && !g_st_range) ==> __CPROVER_return_value == (g_st_neg ? 0UL - g_st_value : g_st_value));
+/* std::string::find(char): assumed contract (C++ standard); "not found" is stated for the arbitrary position g_k and for the position where
+   strtoull saw the sign (an instance of the same universally quantified fact) */
+unsigned long xc_str_find_char(xc_str s, char c)
+__CPROVER_requires(s.data == g_raw && s.len == g_len && g_len < 32)
+__CPROVER_assigns()
+__CPROVER_ensures(__CPROVER_return_value == (unsigned long)-1 || (__CPROVER_return_value < s.len && s.data[__CPROVER_return_value] == c))
+__CPROVER_ensures(__CPROVER_return_value == (unsigned long)-1 ==> ((g_k < s.len ==> s.data[g_k] != c) && (g_st_ws < s.len ==> s.data[g_st_ws] != c)));
+/* strcasecmp against the literals "true" / "false": assumed contract (POSIX), stated through the ghost flags */
+int xc_strcasecmp_lit(const char *s, int which)
+__CPROVER_requires(s == g_raw && g_len < 32 && g_raw[g_len] == 0)
+__CPROVER_assigns()
+__CPROVER_ensures((__CPROVER_return_value == 0) == (which == 1 ?
+   (g_len == 4 && LOWER(g_raw[0]) == 't' && LOWER(g_raw[1]) == 'r' && LOWER(g_raw[2]) == 'u' && LOWER(g_raw[3]) == 'e') :
+   (g_len == 5 && LOWER(g_raw[0]) == 'f' && LOWER(g_raw[1]) == 'a' && LOWER(g_raw[2]) == 'l' && LOWER(g_raw[3]) == 's' && LOWER(g_raw[4]) == 'e')));
+"""
+
+
+def _configure_env(cfg):
+    configure(cfg)
+    cfg.ext_q["GetRawEnvironmentVariable"] = lambda em, node, recv, args: "xc_GetRaw(%s)" % em.addr_of(args[1])
+    cfg.ext["strtoull"] = lambda em, node, recv, args: "xc_strtoull(%s, %s)" % (em.expr(args[0]), em.expr(args[1]))
+
+    def _scc(em, node, recv, args):
+        lit = em._strip_all(args[1])
+        v = lit.get("value", "")
+        if lit.get("kind") != "StringLiteral" or v not in ('"true"', '"false"'):
+            raise common.ExtractionError("strcasecmp against something other than \"true\" / \"false\"")
+        return "xc_strcasecmp_lit(%s, %d)" % (em.expr(args[0]), 1 if v == '"true"' else 0)
+    cfg.ext["strcasecmp"] = _scc
+    cfg.ext["var:errno"] = "xc_errno"
+    for n in ("std::basic_string", "std::__cxx11::basic_string"):
+        cfg.ext_methods[n + "::find"] = lambda em, recv, args, n: "xc_str_find_char(%s, %s)" % (recv, em.expr(args[0]))
+    cfg.type_map["std::uint32_t"] = "unsigned int"
+    for n in ("std::basic_string", "std::__cxx11::basic_string"):
+        cfg.ctor_ext[n] = lambda em, node, args: "((xc_str){\"\", 0})" if not [a for a in args if a.get("kind") != "CXXDefaultArgExpr"] else em.expr(args[0])
+    cfg.ext["__errno_location"] = lambda em, node, recv, args: "(&xc_errno)"
+
+
+ENV_REQ = "__CPROVER_requires(__CPROVER_is_fresh(value, sizeof(*value)) && g_len < 32 && g_raw[g_len] == 0 && (g_exists == 0 || g_exists == 1) && xc_errno == 0)\n"
+contracts_env = {
+    "GetUintEnvironmentVariable": {"pre": ENV_REQ +
+        "__CPROVER_assigns(*value, xc_errno, g_st_calls, g_st_ws, g_st_nd, g_st_neg, g_st_plus, g_st_range, g_st_value)\n"
+        # unset or empty: the default, reported as not set
+        "__CPROVER_ensures((!g_exists || g_len == 0) ==> (!__CPROVER_return_value && *value == 0))\n"
+        # anything that is not accepted yields the documented default 0 (never a partial value)
+        "__CPROVER_ensures(!__CPROVER_return_value ==> *value == 0)\n"
+        # accepted: the whole string is a number (nothing is left over), it fits 32 bits and the value is the number written -
+        # in particular it is not the two's complement of a NEGATIVE number
+        "__CPROVER_ensures(__CPROVER_return_value ==> (g_st_nd > 0 && g_st_ws + (unsigned long)(g_st_neg || g_st_plus) + g_st_nd == g_len && !g_st_range))\n"
+        "__CPROVER_ensures(__CPROVER_return_value ==> (!g_st_neg && *value == g_st_value && g_st_value <= 0xffffffffUL))\n"},
+    "GetBoolEnvironmentVariable": {"pre": ENV_REQ +
+        "__CPROVER_assigns(*value)\n"
+        "__CPROVER_ensures((!g_exists || g_len == 0) ==> (!__CPROVER_return_value && !*value))\n"
+        # true exactly for a case-insensitive "true"; everything else (incl. "false" and junk) reads as false
+        "__CPROVER_ensures((g_exists && g_len > 0) ==> (__CPROVER_return_value && (*value != 0) == "
+        "(g_len == 4 && LOWER(g_raw[0]) == 't' && LOWER(g_raw[1]) == 'r' && LOWER(g_raw[2]) == 'u' && LOWER(g_raw[3]) == 'e')))\n"},
+}
+proofs_env = [
+    Proof("GetUintEnvironmentVariable", [("GetUintEnvironmentVariable", 2)], enforce="GetUintEnvironmentVariable", replace=["xc_strtoull", "xc_str_find_char"], timeout=300,
+          desc="unsigned 32-bit reader: default on anything not accepted; accepted only for a complete in-range number, never for a negative one"),
+    Proof("GetBoolEnvironmentVariable", [("GetBoolEnvironmentVariable", 2)], enforce="GetBoolEnvironmentVariable", replace=["xc_strcasecmp_lit"], timeout=300,
+          desc="boolean reader: true exactly for a case-insensitive 'true'"),
+]
+for _p in proofs_env:
+    _p.pre_c = ENV_PRE
+    _p.post_struct_c = ENV_POST
+    _p.configure = _configure_env
+    _p.own_config = True
+    _p.contracts = contracts_env
+    _p.spec_headers = ()
+proofs += proofs_env
+assumed_contracts = dict(globals().get("assumed_contracts", {}))
+assumed_contracts["xc_strtoull"] = "std::strtoull(s, &end, 10) per C11 7.22.1.4 (white space, optional sign, digits; negation in the unsigned type; ERANGE)"
+assumed_contracts["xc_str_find_char"] = "std::string::find(char) per the C++ standard"
+assumed_contracts["xc_strcasecmp_lit"] = "strcasecmp(s, \"true\"/\"false\") per POSIX (ASCII case folding)"
+
+
+def refute_uint(mod, proof, violations, ix, workdir, seed):
+    """directed native search on the real unsigned reader: numbers around the 32- and 64-bit limits with blanks, signs and junk"""
+    import os, re as _re, subprocess
+    binpath = R.build_native(DRIVER[0], [os.path.join(R.core.HERE, "replay", s) for s in DRIVER[1]] +
+                             [os.path.join(R.core.REPO, s) for s in DRIVER[2]], DRIVER_FLAGS)
+    full = subprocess.run([binpath, "uintsearch"], stdout=subprocess.PIPE, stderr=subprocess.STDOUT, text=True, timeout=300).stdout
+    m = _re.findall(r"^FOUND ([0-9a-f]*)$", full, _re.M)
+    if not m:
+        return None
+    r = R.native_check(DRIVER[0], DRIVER[1], ["uint", m[-1]], DRIVER_FLAGS, repo_sources=DRIVER[2])
+    r["input"] = {"env_value": bytes.fromhex(m[-1]).decode("latin-1"), "found_by": "directed native search (refute mode)"}
+    return r if r["reproduced"] else None
+
+
+refuters["GetUintEnvironmentVariable"] = refute_uint
